@@ -79,6 +79,12 @@ def predicate(h):
             out.append(("two entities carry the same id", i, {"ids": info["dup_ids"][:3]}))
         if info["bad_ids"]:
             out.append(("an id is not a well-formed UUID", i, {"ids": info["bad_ids"][:3]}))
+        # every legal name (non-empty, no slash, not the single dot) is accepted: a refusal "invalid name/type" of a
+        # create whose name and type are legal violates the property whatever the model says
+        if op[0] == "create" and res[0] == "err" and res[1] == 2:
+            name, typ = op[3], op[4]
+            if isinstance(name, str) and name not in ("", ".") and "/" not in name and isinstance(typ, str) and typ:
+                out.append(("a legal name was refused as invalid", i, {"op": op, "message": res[2] if len(res) > 2 else None}))
         # a duplicate name must be refused: the generator's `bad` duplicates show as errors; an accepted
         # create under an existing name would show up as a changed id of the existing member (probe) or
         # as a disagreement with the model
